@@ -6,5 +6,5 @@ for P in "$@"; do
   [ -f /tmp/seedout6-$P/patch.diff ] || { echo "$P: no patch.diff"; continue; }
   SEEDREPO=$S SEED_J=6 bash "$(dirname "$0")/seed_verify.sh" $P /tmp/seedout6-$P $P-6 > /tmp/seedverify6-$P.log 2>&1
   git -C /repo worktree remove --force /tmp/seed6-$P 2>/dev/null
-  echo "$P: $(grep -c VIOLATION /verif/seeded/$P-6/verify.log) violation lines; $(grep -E 'demo on|tests passed' /verif/seeded/$P-6/verify.log | tr '\n' ';')"
+  echo "$P: $(grep -c "^VIOLATION property=" /verif/seeded/$P-6/verify.log) violation lines; $(grep -E 'demo on|tests passed' /verif/seeded/$P-6/verify.log | tr '\n' ';')"
 done
